@@ -25,8 +25,31 @@ def conc(s: str) -> str:
     return s.translate(_TABLE)
 
 
-class Obj:
-    pass
+class OrdinalDrop:
+    """Every item access returns the number of accesses so far ("odd": whether it is odd)."""
+
+    def __init__(self):
+        self.n = 0
+
+    def _get(self, key):
+        self.n += 1
+        if key == "odd":
+            return self.n % 2 == 1
+        if key == "n":
+            return self.n
+        raise KeyError(key)
+
+    def __getitem__(self, key):
+        return self._get(key)
+
+    async def __getitem_async__(self, key):
+        return self._get(key)
+
+    def __eq__(self, other):
+        return isinstance(other, OrdinalDrop)
+
+    def __deepcopy__(self, memo):
+        return OrdinalDrop()
 
 
 def to_py(v):
@@ -50,6 +73,8 @@ def to_py(v):
         return {conc(k): to_py(x) for k, x in v["v"]}
     if t == "range":
         return range(v["a"], v["b"] + 1)
+    if t == "odrop":
+        return OrdinalDrop()
     if t == "float":
         return float(v["f"])
     if t == "big":
